@@ -10,6 +10,7 @@ FORKS = ["FRONTIER", "FRONTIER_THAWING", "HOMESTEAD", "DAO_FORK", "TANGERINE", "
          "CONSTANTINOPLE", "PETERSBURG", "ISTANBUL", "MUIR_GLACIER", "BERLIN", "LONDON", "ARROW_GLACIER",
          "GRAY_GLACIER", "MERGE", "SHANGHAI", "CANCUN", "PRAGUE"]
 SENDER, COINBASE, EOA, ABSENT, EMPTY, C1, C2 = 161, 203, 171, 172, 173, 193, 194
+COINBASE2 = 204
 
 
 def world0(contracts, tokens=None):
@@ -17,6 +18,7 @@ def world0(contracts, tokens=None):
     w = {4: dict(ex=False, bal=0, nonce=0, stor=z),
          SENDER: dict(ex=True, bal=50000000, nonce=5, stor=z),
          COINBASE: dict(ex=True, bal=1, nonce=0, stor=z),
+         COINBASE2: dict(ex=True, bal=0, nonce=0, stor=z),
          EOA: dict(ex=True, bal=5, nonce=1, stor=z),
          ABSENT: dict(ex=False, bal=0, nonce=0, stor=z),
          EMPTY: dict(ex=True, bal=0, nonce=0, stor=z)}
@@ -35,11 +37,11 @@ def tla_world(w):
     return " @@ ".join("(%d :> %s)" % (a, acc(r)) for a, r in w.items())
 
 
-def consts(fork, contracts, kinds, maxsnips, maxtx, txgas, targets, prices=(10,), maxcreates=3, tokens=None, steps=400, variety=True, plan=None):
+def consts(fork, contracts, kinds, maxsnips, maxtx, txgas, targets, prices=(10,), maxcreates=3, tokens=None, steps=400, variety=True, plan=None, coinbases=(COINBASE,), rejections=False):
     fi = FORKS.index(fork)
     q = lambda xs: "{" + ", ".join('"%s"' % x for x in xs) + "}"
     return dict(Fork=fi, Contracts=vf.tla_set(contracts), World0=tla_world(world0(contracts, tokens)), Sender=SENDER,
-                Coinbase=COINBASE, MaxSnips=maxsnips, MaxTx=maxtx, MaxCreates=maxcreates, SnipKinds=q(kinds),
+                Coinbase=COINBASE, Coinbases=vf.tla_set(coinbases), Rejections="TRUE" if rejections else "FALSE", MaxSnips=maxsnips, MaxTx=maxtx, MaxCreates=maxcreates, SnipKinds=q(kinds),
                 TxGas=vf.tla_set(txgas), TxTargets=vf.tla_set(targets), BaseFee=7 if fi >= 12 else 0,
                 GasPrices=vf.tla_set(prices), StepBound=steps, TxVariety="TRUE" if variety else "FALSE",
                 SetupPlan="<<" + ", ".join("[c |-> %d, kinds |-> %s]" % (c, q(ks)) for c, ks in (plan or [])) + ">>")
@@ -105,12 +107,14 @@ def _at(v, path):
 
 ALL = ["store", "tstore", "mem", "log", "env", "env2", "arith", "jump", "call", "rdata", "create", "term"]
 _NOTE = ("Trusted: Evm.tla (my reading of the Yellow Paper and the EIPs listed in its header) and the projection in "
-         "harness/src/bin/evm.rs (address/token resolution, result and world read-back). Domain: the ~75 modelled opcodes "
-         "(every other byte: undefined => halt, defined but unmodelled => behaviour not judged), words below 2^31 or "
-         "address tokens, memory below 4 KiB, 2 contracts + sender/coinbase/EOA/absent/empty account/identity precompile, "
-         "programs of <= 4-6 snippets from a library of ~2000, 1-3 legacy-priced transactions (access lists from Berlin), "
-         "valid transactions only (validity is C02). Not covered: 256-bit arithmetic inside programs, KECCAK256, "
-         "block-info opcodes, blob and EIP-7702 transactions, precompiles other than identity.")
+         "harness/src/bin/evm.rs (address/token resolution, result and world read-back). Domain: the ~95 modelled opcodes "
+         "(every other byte: undefined => halt, defined but unmodelled => behaviour not judged), words below 10^9 or "
+         "address tokens, memory below 4 KiB, 2-3 contracts + sender/two coinbases/EOA/absent/empty account/identity "
+         "precompile, programs of <= 4-6 snippets from a library of ~2500 (free random setup) or exhaustive products of "
+         "snippet families (planned setup), 1-3 transactions: legacy, EIP-2930 access lists, EIP-1559, EIP-4844 blob "
+         "transactions (blob gas price 1) and EIP-7702 authorization lists (authorities supplied as recovered, no "
+         "signatures), plus transactions rejected for lack of funds interleaved. Not covered: 256-bit arithmetic inside "
+         "programs (C03 decides the ALU), KECCAK256, BLOCKHASH, precompiles other than identity (C23), EOF.")
 
 
 def _lvl(what):
@@ -226,6 +230,12 @@ def run(ctx, pid):
                         gas=[100000], prices=(10,))
             replay(ctx, res, r, pid + "refund_" + f, binary, facets=facets)
         if pid == "C08":
+            # repeated self-destructs of one contract with re-funding in between and a reverting ancestor
+            P_SD2 = [(194, ["sdcond"]), (193, ["call194", "call194v"]), (193, ["call194", "call194v"]), (193, ["call195", "call194"]),
+                     (193, ["call194", "call194v"]), (195, ["call194", "call194v"]), (195, ["call194"]), (195, ["rev"])]
+            for f in rot(["SHANGHAI", "BYZANTIUM", "CANCUN", "HOMESTEAD"], 2 if q else 4):
+                r = planned("c08sd2_" + f, f, C3, P_SD2, gas=[600000])
+                replay(ctx, res, r, "c08sd2_" + f, binary, facets=facets)
             for f in rot(["CANCUN", "LONDON", "SPURIOUS_DRAGON", "HOMESTEAD"], 1 if q else 4):
                 r = planned("c08sd_" + f, f, [193, 194], [(194, ["body"]), (193, ["callS"])])
                 replay(ctx, res, r, "c08sd_" + f, binary, facets=facets)
@@ -252,14 +262,15 @@ def run(ctx, pid):
                 replay(ctx, res, r, "c28_" + f, binary, insp=insp)
     elif pid == "C31":
         for f in rot(["CANCUN", "BERLIN", "PRAGUE", "SPURIOUS_DRAGON", "LONDON"], 2 if q else 5):
-            r = sim("c31_" + f, f, ["store", "tstore", "call", "create", "term", "log", "env"], maxtx=3)
+            r = sim("c31_" + f, f, ["store", "tstore", "call", "create", "term", "log", "env", "probe"], maxtx=3,
+                    coinbases=(COINBASE, COINBASE2), rejections=True)
             replay(ctx, res, r, "c31_" + f, binary, reuse=1)
             replay(ctx, res, r, "c31_" + f, binary, reuse=0)
             replay(ctx, res, r, "c31_" + f, binary, reuse=1, insp="none")
         # leak probes: transaction 1 writes transient storage / warms / logs, transaction 2 reads
         for f in rot(["CANCUN", "PRAGUE", "BERLIN"], 1 if q else 3):
             r = planned("c31leak_" + f, f, [193, 194], [(193, ["tstore", "probe", "log"]), (194, ["tstore", "probe"])],
-                        maxtx=2, targets=[193, 194])
+                        maxtx=2, targets=[193, 194], coinbases=(COINBASE, COINBASE2), rejections=True)
             replay(ctx, res, r, "c31leak_" + f, binary, reuse=1)
             replay(ctx, res, r, "c31leak_" + f, binary, reuse=0)
     elif pid == "C34":
